@@ -3,7 +3,7 @@ from __future__ import annotations
 
 import typing as t
 
-from .rules import pairs, escape, dispatch, gates, mutation
+from .rules import pairs, escape, dispatch, gates, mutation, purity, classes_rules
 
 COMMON_TRUST = [
     "CPython's ast parser",
@@ -46,7 +46,8 @@ _reg('C04', [escape.rule_c04_r1, escape.rule_c04_r2, escape.rule_c04_r3, escape.
      "its helper; converter construction raises only TypeError / UnsupportedAnnotation; no converter is built lazily during a pass. "
      "Not decided: exceptions raised by == / __str__ of exotic values, RecursionError / MemoryError, errors of the JSON / YAML parsers.")
 
-_reg('C02', [gates.rule_c02_r1, gates.rule_c02_r2, gates.rule_c02_r3, gates.rule_c02_r4, dispatch.rule_c01_r1],
+_reg('C02', [gates.rule_c02_r1, gates.rule_c02_r2, gates.rule_c02_r3, gates.rule_c02_r4, dispatch.rule_c01_r1, purity.rule_c01_r2,
+             classes_rules.rule_c15_r4],
      "Decides the structural clauses of C02: (R1) the sequence / iterable kind predicates exclude str, bytes and bytearray and the "
      "mapping predicate accepts mappings only; (R2) in both passes of every Converter class each structural use of the raw input "
      "(iteration, zip, enumerate, len, indexing, .items()) is dominated in the CFG by the passing branch of such a gate, across helper "
